@@ -20,7 +20,7 @@ struct SimBudget : std::exception
 // scheduler hook (thread mode): called at marked draws; defined in sched.cc
 void sched_point(int kind, i64 info);
 enum { SP_DRAW = 1, SP_GSL_OFF_PRE, SP_GSL_OFF_POST, SP_QNG_PRE, SP_QNG_POST, SP_GSL_SET_PRE, SP_GSL_SET_POST,
-       SP_MUTEX, SP_TASK_START, SP_TASK_END, SP_OP, SP_IO };
+       SP_MUTEX, SP_TASK_START, SP_TASK_END, SP_OP, SP_IO, SP_ALLOC };
 
 struct SimRandom : bxdecay0::i_random
 {
